@@ -1,7 +1,7 @@
 #!/bin/sh
 # usage: confirm_seed.sh <seed dir with patch.diff, demo.rs, meta.json>
 # Confirms in the scratch worktree /tmp/wt/main (HEAD of /repo): suite passes with the change, demo fails with it, demo passes without.
-D="$1"; shift; EXTRA="$@"; WT=/tmp/wt/main
+D="$1"; shift; EXTRA="$@"; WT="${CONFIRM_WT:-/tmp/wt/main}"
 [ -d "$WT" ] || git -C /repo worktree add -q --detach "$WT" HEAD   # scratch worktree, remove with: git -C /repo worktree remove --force /tmp/wt/main
 cd $WT || exit 2
 git checkout -q -- . ; git clean -qfd tests/ ; git checkout -q --detach $(git -C /repo rev-parse HEAD) 2>/dev/null
